@@ -26,7 +26,7 @@ def probeResult (w : World) (ans : List Ans) : Ans := resolveAll (ans.take w.nbo
 /-- `x` is a completed probe of `d` in which some bootstrap resolver returned an address (and not
 both lookups failed). -/
 def IsPositiveProbe (x : World × Event) (d : Str) : Prop :=
-  ∃ ans, x.2 = .probeDone d ans ∧ x.1.nboot ≠ 0 ∧
+  ∃ ans, (x.2 = .probeDone d ans ∨ ∃ t0, x.2 = .probeFinish d t0 ans) ∧ x.1.nboot ≠ 0 ∧
     ((probeResult x.1 ans).ip4 || (probeResult x.1 ans).ip6) = true ∧
     ((probeResult x.1 ans).err4 && (probeResult x.1 ans).err6) = false
 
@@ -334,13 +334,44 @@ theorem Inv.step {T : List (World × Event)} {w : World} (h : Inv T w) (e : Even
             refine ⟨fun ck od hm => by rw [ac] at hm; rw [an]; exact hw1.cache ck od hm,
               fun bk e hm => by rw [ak] at hm; rw [an]; exact hw1.know bk e hm, fun d' hm => ?_⟩
             rcases ar d' hm with rfl | hm
-            · refine ⟨_, mem_last, ans, rfl, by rw [← hnb1]; exact hnb, ?_, ?_⟩
+            · refine ⟨_, mem_last, ans, Or.inl rfl, by rw [← hnb1]; exact hnb, ?_, ?_⟩
               · simp only [probeResult, ← hnb1]
                 have b2 : ∀ a b : Bool, ¬((!a && !b) = true) → (a || b) = true := by decide
                 exact b2 _ _ hip
               · simp only [probeResult, ← hnb1]
                 simpa using herr
             · exact hw1.real d' hm
+  | probeStart d => exact h.of_shrinks (lookupReal_shrinks w d) (fun _ => mem_weaken)
+  | negCleanup =>
+    exact h.of_shrinks (w' := negCleanup w) ⟨fun _ h => h, fun _ h => h, fun _ h => h, Int.le_refl _⟩ (fun _ => mem_weaken)
+  | newGeneration m n =>
+    exact h.of_shrinks (w' := newGeneration w m n) ⟨fun _ h => h, fun _ h => h, fun _ h => by simp [newGeneration] at h,
+      Int.le_refl _⟩ (fun _ => mem_weaken)
+  | probeFinish d t0 ans =>
+    have hw := h.of_shrinks (Shrinks.refl w) (fun x => @mem_weaken T x (w, Event.probeFinish d t0 ans))
+    show Inv _ (probeFinish w d t0 ans)
+    unfold probeFinish
+    split
+    · exact hw
+    · rename_i hnb
+      simp only []
+      split
+      · exact hw
+      · rename_i herr
+        split
+        · exact hw.of_shrinks ⟨fun _ h => h, fun _ h => h, fun _ h => h, Int.le_refl _⟩ (fun _ h => h)
+        · rename_i hip
+          obtain ⟨ac, ak, an, ar⟩ := addVerified_spec w d
+          refine ⟨fun ck od hm => by rw [ac] at hm; rw [an]; exact hw.cache ck od hm,
+            fun bk e hm => by rw [ak] at hm; rw [an]; exact hw.know bk e hm, fun d' hm => ?_⟩
+          rcases ar d' hm with rfl | hm
+          · refine ⟨_, mem_last, ans, Or.inr ⟨t0, rfl⟩, hnb, ?_, ?_⟩
+            · simp only [probeResult]
+              have b2 : ∀ a b : Bool, ¬((!a && !b) = true) → (a || b) = true := by decide
+              exact b2 _ _ hip
+            · simp only [probeResult]
+              simpa using herr
+          · exact hw.real d' hm
 
 theorem Inv.run {T : List (World × Event)} {w : World} (h : Inv T w) (es : List Event) :
     Inv (T ++ trace w es) (run w es) := by
@@ -492,6 +523,19 @@ theorem probe_know (w : World) (d : Str) (ans : List Ans) :
         · obtain ⟨_, ak, an, _⟩ := addVerified_spec w1 d
           exact ⟨by rw [ak]; exact s.1, by rw [an]; exact s.2⟩
 
+theorem probeFinish_know (w : World) (d : Str) (t0 : Int) (ans : List Ans) :
+    (probeFinish w d t0 ans).know = w.know ∧ (probeFinish w d t0 ans).now = w.now := by
+  unfold probeFinish
+  split
+  · exact ⟨rfl, rfl⟩
+  · simp only []
+    split
+    · exact ⟨rfl, rfl⟩
+    · split
+      · exact ⟨rfl, rfl⟩
+      · obtain ⟨_, ak, an, _⟩ := addVerified_spec w d
+        exact ⟨ak, an⟩
+
 theorem Holds.step {w : World} {bk : Str} {od : Int} (h : Holds w bk od) (e : Event)
     (hk : keepsFamily bk e) : Holds (step w e) bk od := by
   cases e with
@@ -541,6 +585,15 @@ theorem Holds.step {w : World} {bk : Str} {od : Int} (h : Holds w bk od) (e : Ev
   | probeDone d ans =>
     have := probe_know w d ans
     show Holds (probe w d ans) bk od
+    exact h.of_same (by rw [this.1]) (by rw [this.2]; exact Int.le_refl _)
+  | probeStart d =>
+    have := lookupReal_know w d
+    exact h.of_same (w' := (lookupReal w d).1) (by rw [this.1]) (by rw [this.2]; exact Int.le_refl _)
+  | negCleanup => exact h.of_same (w' := negCleanup w) rfl (Int.le_refl _)
+  | newGeneration m n => exact h.of_same (w' := newGeneration w m n) rfl (Int.le_refl _)
+  | probeFinish d t0 ans =>
+    have := probeFinish_know w d t0 ans
+    show Holds (probeFinish w d t0 ans) bk od
     exact h.of_same (by rw [this.1]) (by rw [this.2]; exact Int.le_refl _)
 
 theorem Holds.run {w : World} {bk : Str} {od : Int} (h : Holds w bk od) (es : List Event)
@@ -704,6 +757,22 @@ theorem Bounded.step {w : World} (h : Bounded w) (e : Event) : Bounded (step w e
         · split
           · exact h1.of_same ⟨rfl, rfl⟩
           · exact addVerified_bounded h1 d
+  | probeStart d => exact h.of_same (lookupReal_sameReal w d)
+  | negCleanup => exact h.of_same (w' := negCleanup w) ⟨rfl, rfl⟩
+  | newGeneration m n =>
+    show Bounded (newGeneration w m n)
+    unfold Bounded newGeneration; simp
+  | probeFinish d t0 ans =>
+    show Bounded (probeFinish w d t0 ans)
+    unfold probeFinish
+    split
+    · exact h
+    · simp only []
+      split
+      · exact h
+      · split
+        · exact h.of_same ⟨rfl, rfl⟩
+        · exact addVerified_bounded h d
 
 theorem Bounded.run {w : World} (h : Bounded w) (es : List Event) : Bounded (run w es) := by
   induction es generalizing w with
